@@ -23,13 +23,16 @@ import (
 
 func TestMain(m *testing.M) {
 	node.SetSyncerOnly(true) // the receiving cluster of a log syncer runs in syncer-only mode (no conflict check against local client writes)
+	// the documented switch that makes the transfer step of a remote snapshot a no-op (files are
+	// brought over out of band): lets the snapshot hand-over run without rsync
+	common.SetStrDynamicConf(common.ConfIgnoreRemoteFileSync, "1")
 	stats.Main(m)
 }
 
 const ns = "default"
 const group = "default-0"
 
-const rule = "a generated source log of cluster X (consecutive indexes, non-decreasing terms, entries with 0-3 non-idempotent commands: INCR, INCRBY, APPEND, LPUSH, RPUSH, HINCRBY, SADD/SPOP, ZINCRBY, plus empty entries as leader transfers leave them) and a second source cluster Y on other keys, delivered to the real Server.ApplyRaftReqs as a sender does after interruptions: every batch starts at or before the receiver's synced position + 1, with stale re-sends, duplicates inside a batch, older entries mixed in after newer ones, and injected propose failures (raft drops the proposal) followed by a retry; between deliveries: raft snapshot of the receiver (KVNode.GetSnapshot) and later restart from it (RestoreFromSnapshot + replay of the receiver's own log tail as 'replaying'), and replay of the receiver's own log on a follower replica. Oracle after EVERY delivery, with p = the synced index the receiver reports for X: receiver data == lib/model applied to source[1..p] once, in order; p never decreases; p >= the highest index of a delivery that reported success; X's deliveries never move Y's position; follower data and positions equal the leader's. non-trivial = a non-idempotent entry was re-sent after it had been applied AND a snapshot/restart happened between its first and second delivery"
+const rule = "a generated source log of cluster X (consecutive indexes, non-decreasing terms, entries with 0-3 non-idempotent commands: INCR, INCRBY, APPEND, LPUSH, RPUSH, HINCRBY, SADD/SPOP, ZINCRBY, plus empty entries as leader transfers leave them) and a second source cluster Y on other keys, delivered to the real Server.ApplyRaftReqs as a sender does after interruptions: every batch starts at or before the receiver's synced position + 1, with stale re-sends, duplicates inside a batch, older entries mixed in after newer ones, and injected propose failures (raft drops the proposal) followed by a retry; between deliveries: raft snapshot of the receiver (KVNode.GetSnapshot) and later restart from it (RestoreFromSnapshot + replay of the receiver's own log tail as 'replaying'), and replay of the receiver's own log on a follower replica; at most once a remote snapshot of X whose files never arrive (restore fails: position unchanged, status not 'applied'). Oracle after EVERY delivery, with p = the synced index the receiver reports for X: receiver data == lib/model applied to source[1..p] once, in order; p never decreases; p >= the highest index of a delivery that reported success; X's deliveries never move Y's position; follower data and positions equal the leader's. non-trivial = a non-idempotent entry was re-sent after it had been applied AND a snapshot/restart happened between its first and second delivery"
 
 var rec = stats.New("cross_cluster_replay", rule)
 
@@ -175,6 +178,7 @@ func TestCrossClusterReplay(t *testing.T) {
 		applied := map[uint64]int{} // source index of X -> how often it was delivered
 		firstDelivery := map[uint64]int{}
 		snapshotEpoch := 0
+		snapTried := false
 		nt := false
 		labels := map[string]bool{}
 		var canon []string
@@ -216,6 +220,55 @@ func TestCrossClusterReplay(t *testing.T) {
 				if nx := synced(part, "X"); nx != px {
 					fail("a delivery for another raft group moved the synced position of X here: %d -> %d", px, nx)
 				}
+			case act == 10 && !snapTried && px < uint64(len(srcX)): // the sender hands over a snapshot of X whose files never arrive: the restore fails
+				snapTried = true
+				T := px + uint64(rapid.IntRange(1, 3).Draw(t, "snapahead"))
+				if T > uint64(len(srcX)) {
+					T = uint64(len(srcX))
+				}
+				e := srcX[T-1]
+				req := &syncerpb.RaftApplySnapReq{ClusterName: "X", RaftGroupName: group, Term: e.term, Index: e.index, RaftTimestamp: e.ts, SyncAddr: "127.0.0.1", SyncPath: "/nonexistent"}
+				status := func() syncerpb.RaftApplySnapStatus {
+					st, err := sim.Srv.GetApplySnapStatus(context.Background(), &syncerpb.RaftApplySnapStatusReq{ClusterName: "X", RaftGroupName: group, Term: e.term, Index: e.index})
+					if err != nil {
+						fail("HARNESS: GetApplySnapStatus: %v", err)
+					}
+					return st.Status
+				}
+				waitFor := func(done func(syncerpb.RaftApplySnapStatus) bool) (syncerpb.RaftApplySnapStatus, bool) {
+					var st syncerpb.RaftApplySnapStatus
+					for try := 0; try < 600; try++ {
+						if st = status(); done(st) {
+							return st, true
+						}
+						time.Sleep(5 * time.Millisecond)
+					}
+					return st, false
+				}
+				rsp, err := sim.Srv.NotifyTransferSnap(context.Background(), req)
+				trace = append(trace, fmt.Sprintf("REMOTE SNAPSHOT of X at %d-%d announced (transfer) -> %v %v", e.term, e.index, rsp, err))
+				st, ok := waitFor(func(s syncerpb.RaftApplySnapStatus) bool {
+					return s != syncerpb.ApplyWaitingBegin && s != syncerpb.ApplyWaitingTransfer && s != syncerpb.ApplyMissing
+				})
+				canon = append(canon, fmt.Sprintf("rsnap%d", T))
+				if !ok || st != syncerpb.ApplyTransferSuccess {
+					trace = append(trace, fmt.Sprintf("  transfer did not reach the transferred state (%v): hand-over not continued", st))
+				} else {
+					rsp, err = sim.Srv.NotifyApplySnap(context.Background(), req)
+					st, ok = waitFor(func(s syncerpb.RaftApplySnapStatus) bool { return s != syncerpb.ApplyWaiting && s != syncerpb.ApplyTransferSuccess })
+					trace = append(trace, fmt.Sprintf("  apply of the remote snapshot requested -> %v %v; status %v; synced X=%d", rsp, err, st, synced(part, "X")))
+					labels["remote_snapshot_restore_failed"] = true
+					if ok && st == syncerpb.ApplySuccess {
+						fail("the receiver reports the remote snapshot of X at %d as applied although no snapshot data was ever there (the restore failed): the sender continues at %d and the entries %d..%d are never applied", T, T+1, px+1, T)
+					}
+				}
+				if nx := synced(part, "X"); nx != px {
+					fail("a remote snapshot of X at %d whose restore failed moved the synced position of X: %d -> %d; entries %d..%d will be refused as already applied", T, px, nx, px+1, nx)
+				}
+				if synced(part, "Y") != py {
+					fail("a remote snapshot of X moved the synced position of Y: %d -> %d", py, synced(part, "Y"))
+				}
+				checkData(sim, "receiver after a failed remote snapshot")
 			case act <= 11: // delivery for X as a (re)starting sender would send it
 				if px >= uint64(len(srcX)) && rapid.Bool().Draw(t, "skipdone") {
 					continue
